@@ -11,7 +11,7 @@ import numpy as np
 from .. import scenes as sc
 
 PROPERTY = "C04"
-TECHNIQUE = ("bounded-exhaustive enumeration of the collider descriptor lattice (all 28 orientations incl. the 24 cube "
+TECHNIQUE = ("bounded-exhaustive enumeration of the collider descriptor lattice (all 32 orientations incl. the 24 cube "
              "rotations) on the real aabb() code vs closed-form support values of the reference model")
 RULE = ("state = (type,size,orientation,offset,margin) or (rigid-body factory, pose); one aabb() evaluation per state "
         "gives 6 bound comparisons; non-trivial = orientation is not the identity; distinct = distinct state")
@@ -43,7 +43,7 @@ def enumerate_states(tier, seed):
         for pi, p in enumerate(RB_POSES):
             for variant in range(2 if tier == "quick" else 3):
                 states.append({"rb": fac, "pose": pi, "variant": variant})
-    meta = {"bound_completed": ("full product type x size x 28 orientations x 4 offsets (margin: %s) + 6 rigid-body "
+    meta = {"bound_completed": ("full product type x size x 32 orientations x 4 offsets (margin: %s) + 6 rigid-body "
                                 "factories x 8 poses x %d parameter variants" %
                                 ("all" if tier == "thorough" else "offset 0 and seed slice", 2 if tier == "quick" else 3)),
             "exhaustive": True}
@@ -55,7 +55,7 @@ def _viol(kind, entry, cls, detail):
 
 
 def _ori_class(o):
-    return "cube" if o < sc.N_CUBE else "generic"
+    return "cube" if o < sc.N_CUBE else "generic" if o < sc.N_GENERIC_END else "near_aligned"
 
 
 def _pinned_ellipsoid_extent(T, radii, margin):
@@ -111,6 +111,32 @@ def run_state(desc):
             elif np.any(bb[:, 0] < lo - tol) or np.any(bb[:, 1] > hi + tol):
                 viol.append(_viol("not_tight", "RigidBody.aabb", cls,
                                   {"aabb": bb, "world_vertex_min": lo, "world_vertex_max": hi, "pose": T}))
+        # history: the box must follow later pose changes (attribute assignment as the examples do it,
+        # update_pose, express_in) and repeated calls must not change it
+        class _Artist:
+            def set_data(self, *a, **k):
+                pass
+        rb._artist = _Artist()
+        o2, f2 = RB_POSES[(desc["pose"] + 3) % len(RB_POSES)]
+        T2 = sc.pose(o2, sc.OFFSETS[f2])
+        T3 = sc.pose(o, sc.OFFSETS[(f + 1) % len(sc.OFFSETS)])
+        steps = [("repeat", lambda: None), ("set_body2origin", lambda: setattr(rb, "body2origin_", T2.copy())),
+                 ("update_pose", lambda: rb.update_pose(T3.copy())), ("express_in", lambda: rb.express_in(T2.copy())),
+                 ("repeat2", lambda: None)]
+        for name, act in steps:
+            try:
+                act()
+                bb2 = np.asarray(rb.aabb(), dtype=float)
+            except Exception as e:  # noqa
+                viol.append(_viol("exception", "RigidBody.aabb", cls + ":after_" + name, {"exc": repr(e)[:200]}))
+                break
+            W = rb.vertices_ @ rb.body2origin_[:3, :3].T + rb.body2origin_[:3, 3]
+            lo2, hi2 = W.min(axis=0), W.max(axis=0)
+            L2 = max(1.0, float(np.max(hi2 - lo2)), float(np.linalg.norm(rb.body2origin_[:3, 3])))
+            if bb2.shape != (3, 2) or not np.all(np.abs(bb2[:, 0] - lo2) <= 1e-9 * L2) or not np.all(np.abs(bb2[:, 1] - hi2) <= 1e-9 * L2):
+                viol.append(_viol("stale_or_wrong_after_history", "RigidBody.aabb", cls + ":after_" + name,
+                                  {"aabb": bb2, "world_vertex_min": lo2, "world_vertex_max": hi2}))
+                break
         if o != 0:
             nontrivial.append(["rb", desc["rb"], desc["pose"], desc["variant"]])
         hist["rigid_body"] = {desc["rb"]: 1}
@@ -129,6 +155,20 @@ def run_state(desc):
         bb = np.asarray(col.aabb(), dtype=float)
     except Exception as e:  # noqa
         return {"viol": [_viol("exception", "aabb", cls, {"exc": repr(e)})], "n_eval": 1}
+    # repeated queries (and queries of the wrapped collider) must not change the answer
+    try:
+        bb_b = np.asarray(col.aabb(), dtype=float)
+        col.support_function(np.array([0.3, -0.2, 0.9]))
+        inner = getattr(col, "collider", None)
+        bb_inner = np.asarray(inner.aabb(), dtype=float) if inner is not None else None
+        bb_c = np.asarray(col.aabb(), dtype=float)
+        n_eval += 2
+        if not (np.array_equal(bb, bb_b) and np.array_equal(bb, bb_c)):
+            viol.append(_viol("changes_on_repeated_call", "aabb", cls, {"first": bb, "second": bb_b, "third": bb_c}))
+        if bb_inner is not None and not np.allclose(bb_inner[:, 0] - mv, bb[:, 0], rtol=0, atol=1e-9 * L) :
+            viol.append(_viol("inner_collider_aabb_changed", "aabb", cls, {"outer": bb, "inner": bb_inner, "margin": mv}))
+    except Exception as e:  # noqa
+        viol.append(_viol("exception", "aabb", cls + ":repeat", {"exc": repr(e)[:200]}))
     E = np.eye(3)
     lo = np.array([-ref.h(-E[i]) for i in range(3)])
     hi = np.array([ref.h(E[i]) for i in range(3)])
